@@ -237,12 +237,15 @@ impl<OutL: ExchangeData, OutR: ExchangeData> BinaryStartReceiver<OutL, OutR> {
         let data = if self.first_message && (self.left.cached || self.right.cached) {
             debug_assert!(!self.left.cached || self.left.cache_full);
             debug_assert!(!self.right.cached || self.right.cache_full);
-            self.first_message = false;
-            if self.left.cached {
+            let data = if self.left.cached {
                 Side::Right(self.right.recv(timeout))
             } else {
                 Side::Left(self.left.recv(timeout))
-            }
+            };
+            // if the receive timed out we still do not know whether a new iteration is about to
+            // start: keep asking the non-cached side first
+            self.first_message = matches!(data, Side::Left(Err(_)) | Side::Right(Err(_)));
+            data
         } else if self.left.cached
             && self.left.cache_full
             && !self.left.cache_finished()
